@@ -31,47 +31,53 @@ Print Assumptions C09_no_successful_authenticator_no_caller.
 
 (* ---- the SANs *)
 
-(* Headline, partial: the signed identity list is the authenticated caller's identities, or the one
-   impersonated identity for which the node-authorizer conditions hold; the SAN extension is built
-   from exactly that list, has (number of identities + number of commas inside them) entries, and
-   is entry-for-entry that list when no selected identity contains a comma. *)
-Theorem C09_sans_exact_partial : forall ipf e rs na cfg rq now leaf n,
+(* Headline: the signed identity list is the authenticated caller's identities, or the one
+   impersonated identity for which the node-authorizer conditions hold; no selected identity contains
+   a comma and the SAN extension is entry-for-entry that list (one SAN entry per identity). *)
+Theorem C09_sans_exact : forall ipf e rs na cfg rq now leaf n,
   create_certificate ipf e rs na cfg rq now = RIssued leaf n ->
   exists u ids,
     authenticate e rs = Some u /\ ids <> [] /\
     ((imp_of rq = EmptyString /\ ids = identities u) \/
      (exists a, na = Some a /\ imp_of rq <> EmptyString /\ ids = [imp_of rq] /\
                 impersonation_justified a (extract_cluster_id (rq_cluster_ids rq)) (kinfo u) (imp_of rq))) /\
-    c_sans leaf = build_san ipf (join_with comma ids) /\
-    List.length (c_sans leaf) = List.length ids + total_count comma ids /\
-    (Forall (no_char comma) ids -> c_sans leaf = map (classify ipf) ids).
+    Forall (no_char comma) ids /\
+    c_sans leaf = map (classify ipf) ids.
 Proof. exact create_sans. Qed.
-Print Assumptions C09_sans_exact_partial.
+Print Assumptions C09_sans_exact.
 
-(* the full statement (without the comma premise) is false of the code: finding C09-K4-comma-identity-extra-sans *)
-Theorem C09_sans_exact_refuted :
-  exists ipf e rs na cfg rq now leaf n u,
-    create_certificate ipf e rs na cfg rq now = RIssued leaf n /\
-    authenticate e rs = Some u /\ imp_of rq = EmptyString /\
-    c_sans leaf <> map (classify ipf) (identities u).
-Proof. exact sans_exact_refuted. Qed.
-Print Assumptions C09_sans_exact_refuted.
+(* an identity with a comma -- authenticated or taken from the ImpersonatedIdentity metadata -- is an
+   error outcome, never a certificate (fixed finding C09-K4-comma-identity-extra-sans, 5484dbd) *)
+Theorem C09_comma_identity_refused : forall ipf e rs na cfg rq now u ids,
+  authenticate e rs = Some u -> select_sans na u rq = Some ids ->
+  Exists (fun s => contains_char comma s = true) ids ->
+  exists err, create_certificate ipf e rs na cfg rq now = RSignError err.
+Proof. exact create_comma_refused. Qed.
+Print Assumptions C09_comma_identity_refused.
 
-(* ... and request metadata CAN add an identity: a justified impersonation of (foo, bar) issues a
-   certificate that also carries the DNS name of istiod *)
-Theorem C09_impersonation_adds_identity_refuted :
-  exists ipf e rs a cfg rq now leaf n u id,
+(* Open finding C09-impersonation-trust-domain-unchecked: the node authorizer justifies only the
+   (namespace, service account) of the impersonated identity; its trust-domain segment is taken from
+   the request metadata.  Full statement ("the impersonated identity lies in the trust domain the
+   caller was authenticated in") refuted; what does hold is C09_impersonation_in_caller_trust_domain_partial. *)
+Theorem C09_impersonation_in_caller_trust_domain_refuted :
+  exists ipf e rs a cfg rq now leaf n u,
     create_certificate ipf e rs (Some a) cfg rq now = RIssued leaf n /\
     authenticate e rs = Some u /\
     impersonation_justified a (extract_cluster_id (rq_cluster_ids rq)) (kinfo u) (imp_of rq) /\
-    parse_identity (imp_of rq) = Some id /\ sp_ns id = "foo" /\ sp_sa id = "bar" /\
-    In (SDNS "istiod.istio-system.svc") (c_sans leaf) /\
-    ~ In "istiod.istio-system.svc" (identities u) /\
-    List.length (c_sans leaf) = 3.
-Proof. exact impersonation_adds_identity_refuted. Qed.
-Print Assumptions C09_impersonation_adds_identity_refuted.
+    c_sans leaf = [SURI "spiffe://other.td/ns/foo/sa/bar"] /\
+    identities u = ["spiffe://cluster.local/ns/istio-system/sa/ztunnel"] /\
+    ~ in_caller_trust_domain u (imp_of rq).
+Proof. exact impersonation_trust_domain_refuted. Qed.
+Print Assumptions C09_impersonation_in_caller_trust_domain_refuted.
 
-(* the round trip the SAN construction relies on, and how it fails *)
+(* partial: namespace and service account of a granted impersonation are those of a workload on the
+   caller's node, in the caller's cluster; nothing is said about the trust domain *)
+Theorem C09_impersonation_in_caller_trust_domain_partial : forall a cid k imp,
+  authenticate_impersonation a cid k imp = true -> impersonation_justified a cid k imp.
+Proof. exact authenticate_impersonation_sound. Qed.
+Print Assumptions C09_impersonation_in_caller_trust_domain_partial.
+
+(* the round trip the SAN construction relies on, and why a comma could not be represented *)
 Theorem C09_split_join_roundtrip : forall c l, l <> [] -> Forall (no_char c) l ->
   split_on c (join_with c l) = l.
 Proof. exact split_join. Qed.
@@ -82,12 +88,6 @@ Theorem C09_comma_always_adds_entries : forall ipf ids,
   List.length (build_san ipf (join_with comma ids)) > List.length ids.
 Proof. exact comma_always_adds. Qed.
 Print Assumptions C09_comma_always_adds_entries.
-
-(* the impersonation gate *)
-Theorem C09_impersonation_gate : forall a cid k imp,
-  authenticate_impersonation a cid k imp = true -> impersonation_justified a cid k imp.
-Proof. exact authenticate_impersonation_sound. Qed.
-Print Assumptions C09_impersonation_gate.
 
 (* nothing in the CSR beyond (validity of the CSR, whether it has a CN, its public key) and nothing
    in the metadata beyond the ImpersonatedIdentity string influences the outcome *)
@@ -146,16 +146,16 @@ Print Assumptions C09_expired_chain_rejected.
 
 (* ---- authenticators: error rather than crash *)
 
-(* exactly which verified tokens crash the OIDC authenticator *)
-Theorem C09_oidc_total_partial : forall td auds sub l,
-  oidc_authenticate td auds sub (AudList l) = APanic <->
-  has_prefix "system:serviceaccount" sub = true /\ List.length (split_on colon sub) < 4.
-Proof. exact oidc_panic_iff. Qed.
-Print Assumptions C09_oidc_total_partial.
+(* no token crashes the OIDC authenticator (fixed finding C09-K4-oidc-short-sub-panic, b1796d6);
+   a sub with fewer than four ':'-separated parts is an error *)
+Theorem C09_oidc_total : forall td auds sub aud, oidc_authenticate td auds sub aud <> APanic.
+Proof. exact oidc_total. Qed.
+Print Assumptions C09_oidc_total.
 
-Theorem C09_oidc_total_refuted : exists td auds sub aud, oidc_authenticate td auds sub aud = APanic.
-Proof. exact oidc_total_refuted. Qed.
-Print Assumptions C09_oidc_total_refuted.
+Theorem C09_oidc_short_sub_is_error : forall td auds sub aud,
+  List.length (split_on colon sub) < 4 -> oidc_authenticate td auds sub aud = AErr.
+Proof. exact oidc_short_sub_err. Qed.
+Print Assumptions C09_oidc_short_sub_is_error.
 
 (* which sub strings are accepted, and the identity they yield *)
 Theorem C09_oidc_sub_accepted : forall td auds sub aud ids k,
@@ -184,16 +184,16 @@ Theorem C09_client_cert_total : forall p, cert_authenticate p <> APanic.
 Proof. exact cert_total. Qed.
 Print Assumptions C09_client_cert_total.
 
-(* exactly which peers crash the XFCC authenticator: host:port addresses whose host is not an IP *)
-Theorem C09_xfcc_total_partial : forall ae ha a parsed,
-  xfcc_authenticate ae ha a parsed = APanic <->
-  ae = false /\ ha = false /\ exists lb ins, a = AddrHost false lb ins.
-Proof. exact xfcc_panic_iff. Qed.
-Print Assumptions C09_xfcc_total_partial.
+(* no peer address crashes the XFCC authenticator (fixed finding C09-K11-xfcc-non-ip-peer-panic,
+   273ad34); a host that is not an IP literal is untrusted *)
+Theorem C09_xfcc_total : forall ae ha a parsed, xfcc_authenticate ae ha a parsed <> APanic.
+Proof. exact xfcc_total. Qed.
+Print Assumptions C09_xfcc_total.
 
-Theorem C09_xfcc_total_refuted : exists a parsed, xfcc_authenticate false false a parsed = APanic.
-Proof. exact xfcc_total_refuted. Qed.
-Print Assumptions C09_xfcc_total_refuted.
+Theorem C09_xfcc_non_ip_peer_untrusted : forall ae ha lb ins parsed,
+  xfcc_authenticate ae ha (AddrHost false lb ins) parsed = AErr.
+Proof. exact xfcc_non_ip_untrusted. Qed.
+Print Assumptions C09_xfcc_non_ip_peer_untrusted.
 
 (* an XFCC header is believed only from a loopback peer or a peer inside a trusted CIDR *)
 Theorem C09_xfcc_only_trusted_peers : forall ae ha a parsed ids k,
@@ -216,6 +216,11 @@ Example C09_ex_good_impersonation :
   issued_sans (create_certificate no_ip w_env [{| ar_caller := Some w_zt; ar_err := false |}] (Some w_world) w_cfg
                  (w_rq w_good_imp) w_now) = Some [SURI w_good_imp].
 Proof. exact witness_good_impersonation. Qed.
+
+Example C09_ex_comma_impersonation_refused :
+  create_certificate no_ip w_env [{| ar_caller := Some w_zt; ar_err := false |}] (Some w_world) w_cfg
+                 (w_rq w_evil_imp) w_now = RSignError ECertGen.
+Proof. exact (proj2 witness_impersonation_comma_refused). Qed.
 
 Example C09_ex_roundtrip_premise : Forall (no_char comma) ["spiffe://cluster.local/ns/foo/sa/bar"; "10.1.2.3"].
 Proof. repeat constructor. Qed.
